@@ -1,22 +1,32 @@
-"""C04 - annotations keep denoting the same residues through every view (Annotation.tla).
+"""C04 - annotations keep denoting the same residues through every view (Annotation.tla, AnnotationAln.tla).
 
-TLC enumerates every universe (root of length P at annotation offset 0 / 3 carrying a
-plus-strand feature a and its mirror-image minus-strand feature b, every 1- and 2-span
-placement on 0..P) and, per universe, the closed set of views reachable by seq[a:b],
-rc(), copy(sliced) and seq[::-1].  For every state it emits what the view shows of each
-feature (view positions, residues read on the feature's strand, orientation relative to
-the view) and the result of every get_features(start, stop, allow_partial, biotype/name)
-window query; every transition carries the same observation for its successor.
+Sequence level (Annotation.tla).  TLC enumerates every universe (root of length P at
+annotation offset 0 / 3 carrying a plus-strand feature a and its mirror-image
+minus-strand feature b, every 1- and 2-span placement on 0..P) and, per universe, the
+closed set of views reachable by seq[a:b], rc(), copy(sliced), seq[feature], degap() and
+seq[::-1].  For every state it emits what the view shows of each feature (view
+positions, residues read on the feature's strand, orientation relative to the view) and
+the result of every get_features(start, stop, allow_partial, biotype/name) window
+query; every transition carries the same observation for its successor.
 
-spec -> code, on old-style and new-style Sequence, features made with seq.add_feature
-or loaded as absolute coordinates into a BasicAnnotationDb:
+Alignment level (AnnotationAln.tla).  Every placement of row x (U residues) in L
+columns next to a row y, every 1-/2-span feature of x on either strand, every view
+aln[a:b] / aln.rc(): the feature's columns on the view, the rows of its slice, and its
+projection onto y (positions on y's held sequence, string).
+
+spec -> code, on old-style and new-style Sequence (features made with seq.add_feature -
+on the root, on a root with an offset, on a slice - or loaded as absolute coordinates
+into a BasicAnnotationDb) and on old-style Alignment:
   * every explored state is built on the real classes by a recorded chain of public
     calls; get_features(allow_partial=True/False), feature.map.get_coordinates(),
-    feature.reversed and str(feature.get_slice()) must be what the spec says, the
-    window queries must return exactly the allowed sets, nothing may raise;
+    feature.reversed and str(feature.get_slice()) (alignments: get_slice().to_dict(),
+    get_projected_feature) must be what the spec says, the window queries must return
+    exactly the allowed sets, nothing may raise;
   * every transition that is not part of those chains (other histories of the same
-    view, copies) is applied as well and its result observed the same way
-    (quick: a seeded sample of them).
+    view, copies, feature slices, degap) is applied as well and its result observed the
+    same way (quick, and the larger thorough configurations: a seeded sample of them).
+Everything observed behind seq[feature] / degap() is reported under one structural key
+per kind of view it was taken from.
 
 ./check C04 --replay replays/C04/<file>.json re-runs a recorded failing case.
 """
@@ -363,25 +373,41 @@ def check_variant(rep, kind, mode, ukey, u):
             rep.add(tkey, lambda: d, "queries on a sequence derived by seq[feature] / degap() do not show the same residues: " + sub.fail[first][2])
         return out
 
-    while queue:
-        fk = queue.popleft()
+    deferred = []  # (state, call) pairs postponed by the rule below
+    retry = {}  # state -> calls to make now
+    while queue or deferred:
+        if not queue:
+            fk, act, argstxt = deferred.pop(0)
+            retry = {fk: {(act, argstxt)}}
+            first_visit = False
+        else:
+            fk = queue.popleft()
+            retry = {}
+            first_visit = True
         o = objs[fk]
         look = looks[fk]
         state = look["from"]
-        rep.stats["states"] += 1
+        if first_visit:
+            rep.stats["states"] += 1
 
-        def at_state(r, o=o, state=state, look=look, fk=fk):
-            raised = observe(r, ctx, o, state, look["obs"], chain_of(fk))
-            window_queries(r, ctx, o, state, look, chain_of(fk), raised)
+            def at_state(r, o=o, state=state, look=look, fk=fk):
+                raised = observe(r, ctx, o, state, look["obs"], chain_of(fk))
+                window_queries(r, ctx, o, state, look, chain_of(fk), raised)
 
-        judged(taint[fk], at_state)
+            judged(taint[fk], at_state)
         # group the successors the spec allows per call
         calls = {}
         for act, args, tk, obs in trans.get(fk, ()):
             calls.setdefault((act, dumps(args)), []).append((tk, obs))
         for (act, argstxt), alts in calls.items():
+            if not first_visit and (act, argstxt) not in retry[fk]:
+                continue
             args = json.loads(argstxt)
             tree = any(tk in looks and tk not in objs for tk, _ in alts)
+            if tree and act in ("FeatSlice", "Degap") and taint[fk] is None and fk not in retry:
+                # prefer to reach a state through slices / rc / copies: come back to this call when nothing else is left
+                deferred.append((fk, act, argstxt))
+                continue
             if not tree and not sampled(ctx, fk, act, args, G["edge_rate"]):
                 rep.stats["transitions_not_sampled"] += 1
                 continue
@@ -475,16 +501,21 @@ _UKEY = {
     "aln": re.compile(r'^"\{\\"from\\":\[(\[[0-9,]*\],\[[0-9,]*\],\[\[[0-9,\[\]]*?\]\],\\"[+-]\\"),'),
 }
 _NKEY = {"seq": 2, "aln": 4}
+_ACT = re.compile(r'\\"act\\":\\"(\w+)\\"')
+_ACTIONS = {"seq": {"Universe", "Look", "Slice", "Rc", "RevSlice", "Copy", "FeatSlice", "Degap"}, "aln": {"Universe", "Look", "Slice", "Rc"}}
 
 
 def split_by_universe(emit, scratch, name, level):
     """one file of raw records per universe (the emitted file of the larger configurations does not fit in memory as objects)"""
     files, handles = {}, {}
+    acts = defaultdict(int)
     n = 0
     with open(emit) as fh:
         for line in fh:
             if not line.strip():
                 continue
+            a = _ACT.search(line)
+            acts[a.group(1) if a else "?"] += 1
             m = _UKEY[level].match(line)
             if m is None:
                 r = json.loads(line)
@@ -500,7 +531,10 @@ def split_by_universe(emit, scratch, name, level):
             n += 1
     for h in handles.values():
         h.close()
-    return files, n
+    never = _ACTIONS[level] - set(acts)
+    if never:
+        raise RuntimeError(f"vacuous model run: actions never taken: {sorted(never)}")
+    return files, n, dict(acts)
 
 
 def load_universe(path):
@@ -548,7 +582,8 @@ def stage(run, scratch, job, totals, tm, edge_rate, window_rate):
     run.add_tlc(res)
     tm[f"{name}.tlc_s"] = round(res.wall, 1)
     t0 = time.time()
-    files, nrec = split_by_universe(job.emit, scratch, name, level)
+    files, nrec, acts = split_by_universe(job.emit, scratch, name, level)
+    tm[f"{name}.spec_transitions_by_action"] = acts
     os.unlink(job.emit)
     if not files:
         raise RuntimeError("TLC emitted nothing")
@@ -623,7 +658,7 @@ def check(run: Run):
             # P = 5, all filters: every transition, every window
             ("small", "MC_Annotation_thorough_small.cfg", "seq", 1.0, 1.0),
             # alignments of 6 columns, row x of 4 residues: every state, a seeded sample of the other histories
-            ("aln", "MC_Annotation_aln_thorough.cfg", "aln", float(env("VERIF_C04_EDGES", "0.2")), 0),
+            ("aln", "MC_Annotation_aln_thorough.cfg", "aln", float(env("VERIF_C04_EDGES", "0.1")), 0),
             # P = 6, views of copies / feature slices explored as well: every state, seeded sample of the other histories and of the windows
             ("views", "MC_Annotation_thorough.cfg", "seq", float(env("VERIF_C04_EDGES", "0.1")), float(env("VERIF_C04_WINDOWS", "0.15"))),
         ]
@@ -639,29 +674,38 @@ def check(run: Run):
         finally:
             for job in jobs:
                 job.thread.join()
-    cases = totals["queries"] + totals["window_queries"] + totals["slices"] + totals["created"]
+    cases = (totals["queries"] + totals["window_queries"] + totals["slices"] + totals["created"]
+             + totals["aln_queries"] + totals["aln_slices"] + totals["aln_projections"] + totals["aln_created"])
     run.cov["traces_validated_against_impl"] = totals["states"] + totals["transitions"]
     run.cov["evaluations"] = cases
     run.cov["distinct_nontrivial"] = totals["distinct_nontrivial"]
     run.cov["exhaustive"] = tier == "thorough"
     run.cov["rule"] = (
-        "TLC enumerates every universe (offset x every 1-/2-span placement of feature a on 0..P, feature b its mirror image on the "
-        "minus strand) and per universe the closed set of views reachable by seq[a:b] (0<=a<b<=len), rc(), copy(sliced) (bounded by "
-        "MaxCopy) and seq[::-1]; every state is rebuilt on old/new Sequence (features via add_feature or a BasicAnnotationDb with "
-        "absolute coordinates) by a recorded call chain and observed (whole-view queries with and without partial matches, "
-        "coordinates, orientation, slice string, window x partial x filter queries); transitions outside the chains are applied and "
-        "observed too (quick: seeded sample of edges and windows).  distinct_nontrivial = distinct (universe, view, feature) "
-        "whose feature is only partly retained by the view and whose slice string was compared and agreed."
+        "Sequence level: TLC enumerates every universe (offset 0/3 x every 1-/2-span placement of feature a on 0..P, feature b its "
+        "mirror image on the minus strand) and per universe the closed set of views reachable by seq[a:b] (0<=a<b<=len), rc(), "
+        "copy(sliced), seq[feature], degap() (derived objects bounded by MaxCopy) and seq[::-1]; every state is rebuilt on old/new "
+        "Sequence (features via add_feature on the root / a root with offset / a slice, or a BasicAnnotationDb with absolute "
+        "coordinates) by a recorded call chain and observed (whole-view queries with and without partial matches, coordinates, "
+        "orientation, slice string, window x partial x filter queries); transitions outside the chains are applied and observed too. "
+        "Alignment level: every placement of a row of U residues in L columns x 2 layouts of a second row x every 1-/2-span feature "
+        "x strand x every view aln[a:b] / rc(): alignment feature columns, rows of its slice, projection onto the other row; the same spans "
+        "as an alignment-level feature. "
+        "quick: P=5 / U=3,L=4, seeded 6% sample of the non-chain transitions and windows; thorough: P=5 with every transition and "
+        "window, P=6 with MaxCopy=1 (10% of non-chain transitions, 15% of windows), U=4,L=6 (10% of non-chain transitions). "
+        "distinct_nontrivial = distinct (universe, view, feature) whose feature is only partly retained by the view and whose "
+        "slice (string / alignment rows) was compared and agreed."
     )
     run.note("replay", dict(totals))
     run.note("stages", tm)
     run.assumptions += [
-        "expected slice strings are rendered from the spec's root positions with the complement table defined in Annotation.tla; roots use 12 IUPAC symbols that differ from their complement, each at most once",
-        "views are contiguous (stride 1) slices with 0 <= start < stop <= len, rc(), copy(); seq[::-1] is only required to report no features; strided views, negative/None slice arguments (C01) and empty views are not driven",
-        "two features per universe (plus-strand a, its mirror image b on the minus strand), 1-2 spans each; overlapping or nested features and parent/child records are not driven",
-        "a feature whose extent overlaps a window only with the gap between its spans may or may not be returned (the statement leaves extent vs. residue overlap open)",
-        "exceptions raised while making a view (e.g. new-style copy() of a sequence with an offset, property C01) are counted as unsupported, not as C04 violations",
-        "DNA only; alignment-level projection is a separate stage",
+        "expected slice strings are rendered from the spec's root positions with the complement table defined in Annotation.tla / AnnotationAln.tla; roots use 12 IUPAC symbols that differ from their complement, each at most once",
+        "views are contiguous (stride 1) slices with 0 <= start < stop <= len, rc(), copy(), seq[feature], degap() of gap-free sequences; seq[::-1] is only required to report no features; strided views, negative/None slice arguments (C01) and empty views are not driven",
+        "two features per universe (plus-strand a, its mirror image b on the minus strand), 1-2 spans each; parent/child records (get_children/get_parent), union/shadow/as_one_span and drawables are not driven",
+        "a feature whose extent overlaps a window only with the gap between its spans may or may not be returned (the statement leaves extent vs. residue overlap open); a slice seq[feature] may keep or drop the annotation db when it is one contiguous run, and must drop it otherwise",
+        "exceptions raised while making a view (e.g. new-style copy() of a sequence with an offset, property C01) are counted as unsupported:*, not as C04 violations; so are slices / projections of features of which the view retains nothing",
+        "alignments: old-style Alignment with two rows, one feature on a row in sequence coordinates (queried with on_alignment=False) and the same spans as an alignment-level feature (on_alignment=True), no annotation offsets on rows; Alignment.degap(), ArrayAlignment and new-style collections are not driven",
+        "add_feature on a reverse complemented sequence is not driven (the documentation does not say which strand the spans refer to)",
+        "spec -> code only: no recorded-trace (code -> spec) validation for this property",
     ]
 
 
